@@ -35,8 +35,8 @@ type Prog struct {
 
 	idx *Index // E1, built lazily
 
-	implCache map[string][]*ssa.Function
-	nilFns    map[*ssa.Function]bool // functions whose error result is always nil
+	implCache    map[string][]*ssa.Function
+	nilFns       map[*ssa.Function]bool // functions whose error result is always nil
 	guardHelpers map[*ssa.Function]bool
 }
 
@@ -376,4 +376,3 @@ func (p *Prog) FileOf(pos token.Pos) (*packages.Package, *ast.File) {
 	}
 	return nil, nil
 }
-
